@@ -107,6 +107,11 @@ func (dm *DMap) deleteOnCluster(hkey uint64, key string, f *fragment) error {
 		}
 	}
 
+	if !f.storage.Check(hkey) {
+		// There is no copy on this node, nothing more to remove.
+		return nil
+	}
+
 	err = f.storage.Delete(hkey)
 	if err != nil {
 		return err
@@ -133,7 +138,8 @@ func (dm *DMap) deleteKey(key string) error {
 	if !f.storage.Check(hkey) {
 		// DeleteMisses is the number of deletions reqs for missing keys
 		DeleteMisses.Increase(1)
-		return nil
+		// This node has no copy, but a backup or a previous owner may still hold the
+		// key after a failover or during a fragment hand-over. Delete it there.
 	}
 
 	return dm.deleteOnCluster(hkey, key, f)
